@@ -47,6 +47,12 @@ pub broadcast proof fn lemma_add_empty<A>(s: Seq<A>)
     assert((s + Seq::<A>::empty()) =~= s);
 }
 
+pub broadcast proof fn lemma_take_full<A>(s: Seq<A>)
+    ensures #[trigger] s.take(s.len() as int) == s,
+{
+    assert(s.take(s.len() as int) =~= s);
+}
+
 pub broadcast proof fn lemma_enc32_zero()
     ensures #[trigger] enc32(0) == enc16(0) + enc16(0),
 {
@@ -74,6 +80,7 @@ pub broadcast proof fn lemma_enc32_len(v: u32)
 }
 
 pub broadcast group group_ipp_seq {
+    lemma_take_full,
     lemma_empty_add,
     lemma_add_empty,
     lemma_enc32_zero,
@@ -253,6 +260,37 @@ pub broadcast axiom fn axiom_string_key_model()
 /// A-string-ext: a `String` is determined by its contents.
 pub axiom fn axiom_string_ext(a: String, b: String)
     ensures a@ == b@ ==> a == b;
+
+/// A `String` with the given content (uninterpreted inverse of the view; A-string-ext makes it unique).
+pub uninterp spec fn str_of(s: Seq<char>) -> String;
+
+pub broadcast axiom fn axiom_str_of(s: Seq<char>)
+    ensures (#[trigger] str_of(s))@ == s;
+
+/// `str_of` inverts the view (from A-string-ext and the axiom above)
+pub broadcast proof fn lemma_str_of_view(k: String)
+    ensures #[trigger] str_of(k@) == k,
+{
+    axiom_str_of(k@);
+    axiom_string_ext(str_of(k@), k);
+}
+
+/// A-string-borrow: looking a `String`-keyed map up by `&str` finds the key with that content
+/// (`String: Borrow<str>` with consistent Hash/Eq; vstd leaves these two predicates uninterpreted).
+pub broadcast axiom fn axiom_string_borrow_contains<V>(m: Map<String, V>, k: &str)
+    ensures #[trigger] vstd::std_specs::hash::contains_borrowed_key::<String, V, str>(m, k) == m.contains_key(str_of(k@));
+
+pub broadcast axiom fn axiom_string_borrow_maps<V>(m: Map<String, V>, k: &str, v: V)
+    ensures #[trigger] vstd::std_specs::hash::maps_borrowed_key_to_value::<String, V, str>(m, k, v)
+        == (m.contains_key(str_of(k@)) && m[str_of(k@)] == v);
+
+pub broadcast group group_ipp_machine {
+    axiom_str_of,
+    lemma_str_of_view,
+    axiom_string_borrow_contains,
+    axiom_string_borrow_maps,
+}
+
 
 /// Text of anything passed as `AsRef<str>` (uninterpreted; pinned for `&str` and `&String` below).
 pub uninterp spec fn as_ref_str<S: ?Sized>(s: &S) -> Seq<char>;
